@@ -74,3 +74,42 @@ Example leftovers :
         q_items := [{| x_item := {| i_op := OCreate; i_gate := true |}; x_present := [[]] |}] |}))
   = {| t_ph := Some 1; t_ver := 20; t_apv := 20; t_ident := 2; t_async := false |}.
 Proof. vm_compute. reflexivity. Qed.
+
+(* ---------- which fields the handlers read ---------- *)
+
+(* two engine objects look the same to a handler when they agree on placeholder, version, attribute
+   policy and identity; the asynchronous flag is never read below process_request *)
+Definition same_view (t t' : transient) : Prop :=
+  t_ph t = t_ph t' /\ t_ver t = t_ver t' /\ t_apv t = t_apv t' /\ t_ident t = t_ident t'.
+
+Lemma step_item_t_view : forall xs t t' xi, same_view t t' ->
+  fst (fst (step_item_t xs t xi)) = fst (fst (step_item_t xs t' xi)) /\
+  snd (fst (step_item_t xs t xi)) = snd (fst (step_item_t xs t' xi)) /\
+  same_view (snd (step_item_t xs t xi)) (snd (step_item_t xs t' xi)).
+Proof.
+  intros xs t t' xi (H1 & H2 & H3 & H4). unfold step_item_t. rewrite H1, H2, H3, H4.
+  destruct (step_item (t_ver t') (t_ident t') (xs_base xs) (t_ph t') (x_item xi)) as [[r st'] ph']. simpl.
+  split; [|split]; auto. unfold same_view, set_ph; simpl. auto.
+Qed.
+
+Lemma run_items_t_view : forall cont its xs t t', same_view t t' ->
+  fst (fst (run_items_t cont xs t its)) = fst (fst (run_items_t cont xs t' its)) /\
+  snd (fst (run_items_t cont xs t its)) = snd (fst (run_items_t cont xs t' its)) /\
+  same_view (snd (run_items_t cont xs t its)) (snd (run_items_t cont xs t' its)).
+Proof.
+  induction its as [|xi rest IH]; intros xs t t' V; [simpl; auto|].
+  cbn [run_items_t].
+  pose proof (step_item_t_view xs t t' xi V) as (A & B & C).
+  destruct (step_item_t xs t xi) as [[r xs1] t1]. destruct (step_item_t xs t' xi) as [[r' xs1'] t1'].
+  simpl in A, B, C. subst r' xs1'.
+  destruct (xfailed (x_item xi) r && negb cont); [simpl; auto|].
+  specialize (IH xs1 t1 t1' C). destruct IH as (A2 & B2 & C2).
+  destruct (run_items_t cont xs1 t1 rest) as [[rs xs2] t2]. destruct (run_items_t cont xs1 t1' rest) as [[rs' xs2'] t2'].
+  simpl in *. subst. auto.
+Qed.
+
+(* every field a handler reads has been written from the request itself when the batch starts *)
+Lemma batch_view_from_request : forall t who v b,
+  let t' := set_ident (set_async (set_version (set_ph (set_ident t nobody) None) v) b) who in
+  t_ph t' = None /\ t_ver t' = v /\ t_apv t' = v /\ t_ident t' = who.
+Proof. intros. simpl. auto. Qed.
